@@ -1189,6 +1189,21 @@ class BuiltinsMixin(object):
                     flat.append(a)
             if flat is not None:
                 return self.call_value(fv, flat, kw, path, node)
+            unb = fv
+            if isinstance(unb, App) and unb.op == 'attr' and \
+                    isinstance(unb.args[0], CRef) and \
+                    isinstance(unb.args[1], Const):
+                unb = BoundB(unb.args[0], unb.args[1].v)
+            if isinstance(unb, BoundB) and isinstance(unb.recv, CRef) and \
+                    getattr(unb.recv.ci, 'name', None) in ('set',
+                                                           'frozenset') and \
+                    unb.name in ('union', 'intersection') and \
+                    len(args) == 1 and not kw:
+                # set.union(*XS): XS[0].union(*XS[1:]); TypeError if empty
+                return [(path, App('setfold', Const(unb.name),
+                                   Const('$unbound'),
+                                   self.snapshot_deep(args[0].args[0],
+                                                      path)))]
             if isinstance(fv, BoundB) and len(args) == 1 and not kw and \
                     fv.name in ('intersection', 'union', 'difference') and \
                     self.is_setlike(fv.recv, path):
@@ -2063,6 +2078,18 @@ class BuiltinsMixin(object):
                                Tup([self.snapshot(a, path) for a in args])))]
         if isinstance(recv, Tup) and name == '__iter__':
             return [(path, App('iter', recv))]
+        if name == '__new__' and isinstance(recv, App) and \
+                recv.op == 'attr' and recv.args[1] == Const('__class__') and \
+                len(args) == 1 and args[0] == recv:
+            # x.__class__.__new__(x.__class__): a bare instance of the class
+            # of x (its declared class: the analysis is done for that one)
+            ci = self.class_of(recv.args[0], path)
+            if isinstance(ci, ClassInfo) and \
+                    self.prog.method(ci, '__new__') is None:
+                o = path.alloc('inst', site=node)
+                path.heap[o.oid].ci = ci
+                self.event(path, 'alloc', o, ci.qn, (), node)
+                return [(path, o)]
         sargs = tuple(self.snapshot(a, path) for a in args)
         if name in MUTATORS:
             b = recv
